@@ -60,15 +60,20 @@ fn parse_repl_meta<T: AsRef<[u8]>>(resp: &Resp<T>) -> Result<ReplicatorMeta, Cmd
         _ => return Err(CmdParseError::InvalidArgs),
     };
 
-    // Skip the "UMCTL SETREPL"
-    let it = arr.iter().skip(2).flat_map(|resp| match resp {
-        Resp::Bulk(BulkStr::Str(safe_str)) => match str::from_utf8(safe_str.as_ref()) {
-            Ok(s) => Some(s.to_string()),
-            _ => None,
-        },
-        _ => None,
-    });
-    let mut it = it.peekable();
+    // Skip the "UMCTL SETREPL".
+    // Every argument must be a UTF-8 bulk string: an element of any other kind
+    // rejects the whole command instead of being dropped silently.
+    let mut args = Vec::with_capacity(arr.len().saturating_sub(2));
+    for element in arr.iter().skip(2) {
+        match element {
+            Resp::Bulk(BulkStr::Str(safe_str)) => match str::from_utf8(safe_str.as_ref()) {
+                Ok(s) => args.push(s.to_string()),
+                Err(_) => return Err(CmdParseError::InvalidArgs),
+            },
+            _ => return Err(CmdParseError::InvalidArgs),
+        }
+    }
+    let mut it = args.into_iter().peekable();
 
     let epoch_str = it.next().ok_or(CmdParseError::InvalidEpoch)?;
     let epoch = epoch_str
